@@ -192,6 +192,40 @@ def batch_scope(level="quick"):
                                                    "wc": wc})
 
 
+def batch_seq_scope(level="quick"):
+    """Reservations taken and released one after the other: a's workflow has
+    finished (its reservation released) when b's workflow runs, and c's
+    ingest (1-2 machines) starts while b's workflow is running."""
+    wa = dag("chain2", [1, 1], [0])
+    wbs = [dag("chain2", [3, 3], [0]), dag("indep2", [4, 3])]
+    wc = dag("single", [1])
+    Ms = (2, 3, 4) if level == "thorough" else (2, 3)
+    for M in Ms:
+        machines = CLUSTERS[M][0]
+        for wb in (wbs if level == "thorough" else wbs[:1]):
+            for sb in (2, 3, 4, 5):
+                for gap in (2, 3, 4, 5):
+                    for ing_a, ing_c in ((1, 1), (1, 2), (2, 2)):
+                        if ing_c > M:
+                            continue
+                        obs = [mkobs("a", 0, 1, 1, 1, ing_a, "wa"),
+                               mkobs("b", sb, 1, 1, 1, 1, "wb"),
+                               mkobs("c", sb + gap, 2, 1, 1, ing_c, "wc")]
+                        cfg = mkcfg(machines, obs, (100, 10), (100, 10), 3,
+                                    2)
+                        yield "S-batch-seq", mkcase(
+                            cfg, {"wa": wa, "wb": wb, "wc": wc})
+
+
+def batch_seq_algs(case, level="quick"):
+    M = len(case["cfg"]["machines"])
+    out = [{"kind": "batch", "p": 1, "min": 1}]
+    if M >= 2:
+        out.append({"kind": "batch", "p": 2, "min": 1})
+        out.append({"kind": "batch", "p": 1, "min": 2})
+    return out
+
+
 def batch_algs(case, level="quick"):
     M = len(case["cfg"]["machines"])
     names = [o["name"] for o in case["cfg"]["obs"]]
@@ -246,6 +280,10 @@ def wide_scope(level="quick"):
             ("bfly-v3", dag("bfly", [1, 1, 1, 1], 3)),
             ("bfly-c23", dag("bfly", [2, 2, 3, 3], [1, 3, 3, 1])),
             ("bfly-mix", dag("bfly", [1, 2, 1, 1], [3, 1, 1, 3])),
+            # transfers of two and more steps: a task sits on its machine in
+            # the transfer wait (SCHEDULED, not yet RUNNING) across timesteps
+            ("bfly-v5", dag("bfly", [1, 1, 1, 1], 5)),
+            ("bfly-v4-c2", dag("bfly", [1, 1, 2, 2], [4, 6, 6, 4])),
             ("fork", dag("fork", [1, 1, 1], [1, 1])),
             ("fork-v3", dag("fork", [2, 1, 1], [3, 3])),
             ("fork-v5", dag("fork", [1, 2, 2], [5, 3]))]
@@ -394,6 +432,29 @@ def park_scope(level="quick"):
                         yield "S-park", mkcase(cfg, {"wa": wf_long,
                                                      "wb": wf_short,
                                                      "wc": wf_short})
+
+
+def park2_scope(level="quick"):
+    """Three overlapping observations on a hot buffer that holds all of them
+    but is over its tiering threshold with any two: two observations are
+    parked in cold storage at the same time and have to come back."""
+    wf = dag("single", [1])
+    durs = [(8, 8, 6), (4, 4, 3), (8, 6, 6), (4, 4, 4)]
+    hots = [(18, 2, 1), (18, 10, 1), (9, 1, 2), (9, 3, 2)]
+    if level == "thorough":
+        durs += [(6, 8, 4), (8, 4, 8)]
+        hots += [(12, 2, 1), (27, 3, 1)]
+    for H, rate, k in hots:
+        for crate in (1, 2, 10):
+            for sb in (1, 2, 3):
+                for sc in (3, 4, 6):
+                    for da, db, dc in durs:
+                        obs = [mkobs("a", 0, da // k, 1, 1, 1, "w"),
+                               mkobs("b", sb, db // k, 1, 1, 1, "w"),
+                               mkobs("c", sc, dc // k, 1, 1, 1, "w")]
+                        cfg = mkcfg(CLUSTERS[4][0], obs, (H, rate),
+                                    (60, crate), 3, 3)
+                        yield "S-park2", mkcase(cfg, {"w": wf})
 
 
 def park_algs(case, level="quick"):
